@@ -73,7 +73,7 @@ func init() {
 
 func genC08(seed int64, tier string, emit func(run.Case)) {
 	r := gen.New(seed)
-	n := tierN(tier, 70, 6000)
+	n := tierN(tier, 70, 2000)
 	type prog struct {
 		text  string
 		files map[string]string
